@@ -298,13 +298,18 @@ def n1_normalize(ctx):
     site = ctx.site(TR, fn)
     b = sym.Bindings(fn)
     mesh = au.params(fn)[0]
-    top = [st for st in fn.body if isinstance(st, ast.If) and isinstance(st.test, ast.Name) and st.test.id == "center_at_zero"]
-    if len(top) != 1:
+    from .. import decide
+    switch = au.params(fn)[1] if len(au.params(fn)) > 1 else None
+    try:
+        names, rows = decide.table(fn.body, lambda e: switch if isinstance(e, ast.Name) and e.id == switch else None)
+    except decide.Unknown:
+        names, rows = [], []
+    if names != [switch] or any(len(taken) != 1 for _, taken in rows):
         ctx.fail("C06-N1", site, "normalize() is no longer split on center_at_zero", "")
         return
 
-    def parse(body):
-        for st in body:
+    def parse(path):
+        for st in path.stmts:
             if isinstance(st, ast.Return) and isinstance(st.value, ast.Call) and au.call_tail(st.value) == "scale":
                 sc = st.value
                 inner = sc.args[0] if sc.args else None
@@ -312,11 +317,8 @@ def n1_normalize(ctx):
                         and not sc.keywords:
                     return au.src(inner.args[0]), au.src(b.resolve(inner.args[1], at=st)), au.src(b.resolve(sc.args[1], at=st))
         return None
-    bnd = None
-    for st in fn.body:
-        if isinstance(st, ast.Assign) and isinstance(st.value, ast.Call) and au.call_name(st.value) == "AABB.of_mesh":
-            bnd = st.targets[0].id
-    c, a = parse(top[0].body), parse(top[0].orelse)
+    by = {env[switch]: parse(taken[0]) for env, taken in rows}
+    c, a = by.get(True), by.get(False)
     span = f"1 / np.max(AABB.of_mesh({mesh}).span)"
     want_c = (mesh, f"-AABB.of_mesh({mesh}).center", f"2 * ({span})")
     want_a = (mesh, f"-AABB.of_mesh({mesh}).mini", span)
